@@ -85,9 +85,12 @@ def irfftAt (T : Trig R) (n : Nat) (Y : Nat → R × R) (t : Nat) : R :=
 /-- `dephas = zeros(ns); np.put(dephas, 1, 1)`: the impulse delayed by one sample. -/
 def delta1 (t : Nat) : R := if t = 1 then ((1 : Nat) : R) else ((0 : Nat) : R)
 
+/-- `shape[axis] = ns`: the impulse array `dephas` has as many samples along the shift axis as the trace -/
+abbrev impulseLen (ns : Nat) : Nat := ns
+
 /-- `np.angle(rfft(dephas))[k]` -/
 def dephasAngle (T : Trig R) (n k : Nat) : R :=
-  let D := rfftAt T n (delta1 (R := R)) k
+  let D := rfftAt T (impulseLen n) (delta1 (R := R)) k
   T.atan2 D.2 D.1
 
 /-- `np.exp(1j * np.angle(dephas) * s)[k]` -/
@@ -199,6 +202,138 @@ def parabolicMax (half : R) (isZero : R → Bool) (lt : R → R → Bool) (x : A
   else
     let v := parabolicVertex half isZero (at0 x (imax - 1)) (at0 x imax) (at0 x (imax + 1))
     (v.1 + ((imax : Nat) : R), v.2)
+
+/-! ### Round h: frequency-domain entry point, integer skeleton (stage list), vectorised `parabolic_max`, delay estimate -/
+
+/-- `fshift(W, s, ns=ns)` on an already transformed (complex) 1-D half spectrum `W`: the `do_fft = False` path
+multiplies by the phase ramp and returns the spectrum (no transform in either direction). -/
+def fshiftFreq (T : Trig R) (W : Array (R × R)) (ns : Nat) (s : R) : Array (R × R) :=
+  Array.ofFn (n := W.size) fun k => cmul W[k] (phase T ns k.val s)
+
+/-- the same with its error branches: `np.put(dephas, 1, 1)` needs `ns ≥ 2`; the in-place product `W *= ramp` needs the
+`ns // 2 + 1` bins of the ramp (NumPy broadcasting: ValueError otherwise). -/
+def fshiftFreq1 (T : Trig R) (W : Array (R × R)) (ns : Nat) (s : R) : Except Err (Array (R × R)) :=
+  if ns < 2 then .error .indexError
+  else if W.size ≠ ns / 2 + 1 then .error .valueError
+  else .ok (fshiftFreq T W ns s)
+
+/-- An observable stage of the source function: tag and integer arguments (the vocabulary of `harness/tiespecs/c07.py`). -/
+abbrev Ev := String × List Int
+
+/-- **Stage list of `fshift` on real input** (`do_fft`): write the value 1 at flat position 1 of the zero array `dephas`
+(extent `ns` along `axis`, 1 elsewhere), transform it along `axis`, transform the data along `axis`, (per-trace shifts
+only: reshape the shift vector to extent 1 along `axis`), multiply, inverse transform to `ns` samples along `axis`. -/
+def planReal (perTrace : Bool) (axis ns : Int) : List Ev :=
+  [("put", [1, 1]), ("rfft_impulse", [axis]), ("rfft_data", [axis])]
+    ++ (if perTrace then [("reshape", [])] else []) ++ [("irfft", [ns, axis])]
+
+/-- Stage list on complex (already transformed) input: only the impulse is transformed. -/
+def planFreq (axis : Int) : List Ev := [("put", [1, 1]), ("rfft_impulse", [axis])]
+
+/-- extent of the reshaped per-trace shift vector along the shift axis (`s_shape[axis] = 1`): it is broadcast along it -/
+def shiftExtentAlongAxis : Nat := 1
+
+/-- State of the stage interpreter on ONE real trace: the impulse array `dephas` before its transform, the phase angle per
+bin once it is transformed, the spectrum of the data, the result. -/
+structure PlanState (R : Type) where
+  impulse : Nat → R
+  angle : Option (Nat → R)
+  spec : Option (Array (R × R))
+  out : Option (Array R)
+
+/-- the interpreter starts from `dephas = zeros` -/
+def PlanState.init : PlanState R := ⟨fun _ => ((0 : Nat) : R), none, none, none⟩
+
+/-- One stage, executed with the model's own primitives on the trace `x` with the scalar shift `s`. -/
+def execStage (T : Trig R) (x : Array R) (s : R) (st : PlanState R) (e : Ev) : PlanState R :=
+  match e with
+  | ("put", [i, v]) => { st with impulse := fun t => if (t : Int) = i then ((v.toNat : Nat) : R) else st.impulse t }
+  | ("rfft_impulse", [_]) =>
+    { st with angle := some fun k => let D := rfftAt T x.size st.impulse k; T.atan2 D.2 D.1 }
+  | ("rfft_data", [_]) => { st with spec := some (rfft T x) }
+  | ("irfft", [ns, _]) =>
+    match st.angle, st.spec with
+    | some a, some X =>
+      let W : Array (R × R) := Array.ofFn (n := X.size) fun k => cmul X[k] (T.cos (a k.val * s), T.sin (a k.val * s))
+      { st with out := some (irfft T W ns.toNat) }
+    | _, _ => st
+  | _ => st
+
+/-- run a stage list -/
+def runPlan (T : Trig R) (x : Array R) (s : R) (plan : List Ev) : Option (Array R) :=
+  (plan.foldl (execStage T x s) PlanState.init).out
+
+/-! #### `parabolic_max`, 2-D branch (one row = one trace)
+
+        v010 = np.vstack((x[..., np.arange(x.shape[0]), np.maximum(imax - 1, 0)],
+                          x[..., np.arange(x.shape[0]), imax],
+                          x[..., np.arange(x.shape[0]), np.minimum(imax + 1, ns - 1)]))
+        ...
+        maxi[iedges] = v010[1, iedges]
+        ipeak[iedges] = imax[iedges]
+-/
+
+/-- the three (clipped) sample positions read around the maximum of a row -/
+def pmaxIdx (imax ns : Nat) : Nat × Nat × Nat := (imax - 1, imax, min (imax + 1) (ns - 1))
+
+/-- `0.5 *` this matrix maps the three samples to the coefficients `(poly[0], poly[1], poly[2])` -/
+def pmaxMatrix : List (List Int) := [[1, -2, 1], [-1, 0, 1], [0, 2, 0]]
+
+/-- Integer skeleton of `parabolic_max` (vocabulary of the tie): argmax along the last axis, the three positions read
+(2-D branch only), twice the scale factor and the nine matrix entries, the operands of the two edge tests. -/
+def pmaxPlan (twoD : Bool) (imax ns : Nat) : List Ev :=
+  [("argmax", [-1])]
+    ++ (if twoD then [("rows", [((pmaxIdx imax ns).1 : Int), ((pmaxIdx imax ns).2.1 : Int), ((pmaxIdx imax ns).2.2 : Int)])] else [])
+    ++ [("poly", 1 :: pmaxMatrix.flatten), ("edges", [(imax : Int), 0, (imax : Int), ((ns - 1 : Nat) : Int)])]
+
+/-- one row of the 2-D branch, transcribed literally: the interpolation is computed from the clipped positions for every
+row, then overwritten by the sample itself on the rows whose maximum is on an edge -/
+def parabolicMaxRow (half : R) (isZero : R → Bool) (lt : R → R → Bool) (x : Array R) : R × R :=
+  let ns := x.size
+  let imax := argmax lt x
+  let idx := pmaxIdx imax ns
+  let v := parabolicVertex half isZero (at0 x idx.1) (at0 x idx.2.1) (at0 x idx.2.2)
+  if imax = 0 ∨ imax = ns - 1 then (((imax : Nat) : R), at0 x idx.2.1) else (v.1 + ((imax : Nat) : R), v.2)
+
+/-- `parabolic_max(x)` for a 2-D array given as rows: `(ipeak[i], maxi[i])` per row -/
+def parabolicMax2 (half : R) (isZero : R → Bool) (lt : R → R → Bool) (w : Array (Array R)) : Array (R × R) :=
+  w.map (parabolicMaxRow half isZero lt)
+
+/-! #### `waveforms.wave_shift_corrmax`
+
+    sig_len = spike.shape[0]
+    c = scipy.signal.correlate(spike, spike2, mode='same')
+    ipeak, maxi = parabolic_max(c)
+    shift_computed = (ipeak - np.floor(sig_len / 2)) * -1
+    spike_resync = fshift(spike2, -shift_computed)
+    return spike_resync, shift_computed
+
+`scipy.signal.correlate(a, b, mode='same')[j] = Σ_t a[t + j - n // 2] · b[t]` (zero outside the arrays) for two real arrays
+of the same length `n` (external; compared numerically with the defining sum on every run).
+-/
+
+/-- `scipy.signal.correlate(a, b, mode='same')` for arrays of the same length -/
+def correlateSame (a b : Array R) : Array R :=
+  Array.ofFn (n := a.size) fun j =>
+    sumN b.size fun t => (if a.size / 2 ≤ t + j.val then at0 a (t + j.val - a.size / 2) else ((0 : Nat) : R)) * at0 b t
+
+/-- index of the zero-lag sample of a `mode='same'` correlation of `n` samples: `np.floor(sig_len / 2)` -/
+def corrmaxZeroLag (n : Nat) : Nat := n / 2
+
+/-- `shift_computed = (ipeak - np.floor(sig_len / 2)) * -1` -/
+def corrmaxShift (n : Nat) (ipeak : R) : R := -(ipeak - ((corrmaxZeroLag n : Nat) : R))
+
+/-- `wave_shift_corrmax(spike, spike2)` = `(spike_resync, shift_computed)` -/
+def waveShiftCorrmax (T : Trig R) (half : R) (isZero : R → Bool) (lt : R → R → Bool) (spike spike2 : Array R) :
+    Array R × R :=
+  let c := correlateSame spike spike2
+  let shift := corrmaxShift spike.size (parabolicMax half isZero lt c).1
+  (fshiftCore T spike2 (-shift), shift)
+
+/-- Stage list of `waveforms.shift_waveform` on a cluster of `N` spikes: for each spike in order, one delay estimate
+against the template and one `fshift` of that spike's own traces. -/
+def shiftWaveformPlan (N : Nat) : List Ev :=
+  (List.range' 0 N).flatMap fun (i : Nat) => [("corrmax", []), ("fshift", [(i : Int)])]
 
 end generic
 
